@@ -506,7 +506,7 @@ async fn seq_case_async(case_seed: u64, big: bool, r: &mut Report) {
     let mut rng = Rng::new(case_seed);
     let c: usize = if big { 1024 * 1024 } else { *rng.pick(&[16usize, 16, 64]) };
     let batch = *rng.pick(&[1usize, 3, 100, 1 << 20]);
-    let real_clock = !big && rng.chance(1, 40);
+    let real_clock = !big && rng.chance(1, 120);
     let (blob, store) = match mk_blob(if big { None } else { Some(c) }, batch).await {
         Ok(x) => x,
         Err(e) => {
@@ -524,6 +524,48 @@ async fn seq_case_async(case_seed: u64, big: bool, r: &mut Report) {
     let mut ages_left = if real_clock { 2 } else { usize::MAX };
     let (mut deletes, mut collections, mut shared_seen) = (0u64, 0u64, false);
     let mut sizes_seen: BTreeSet<&'static str> = BTreeSet::new();
+
+    if big {
+        // the boundary sizes at the default chunk size, overlapping content (same leading blocks),
+        // one-shot or streamed in pieces that do not divide the chunk size
+        for size in [1usize, c - 1, c, c + 1, 3 * c + 7] {
+            let data = sized(&pool, size, 0);
+            note_size(&mut sizes_seen, size, c);
+            let streamed = rng.bool();
+            let out = if streamed {
+                match blob.writer("s", PutOptions::new()).await {
+                    Ok(mut w) => {
+                        let piece = 60_000 + rng.below(10_000);
+                        let mut err = None;
+                        for p in data.chunks(piece) {
+                            if let Err(e) = w.write(p).await {
+                                err = Some(e);
+                                break;
+                            }
+                        }
+                        match err {
+                            Some(e) => Err(e),
+                            None => w.finish().await,
+                        }
+                    }
+                    Err(e) => Err(e),
+                }
+            } else {
+                blob.put("f", &data, PutOptions::new()).await
+            };
+            trace.push(format!("{}({})", if streamed { "stream" } else { "put" }, size));
+            match out {
+                Ok(id) => {
+                    live.insert(id, Arc::new(data));
+                    r.count(if streamed { "streams_finished" } else { "puts" }, 1);
+                }
+                Err(e) => {
+                    r.inconclusive(&format!("put returned {}", err_name(&e)));
+                    return;
+                }
+            }
+        }
+    }
 
     macro_rules! fail {
         ($v:expr) => {{
@@ -1379,7 +1421,7 @@ fn main() {
     } else {
         let want = |p: &str| part == "all" || part == p;
         if want("seq") {
-            let n = args.by_tier(2_500u64, 120_000u64);
+            let n = args.by_tier(6_000u64, 150_000u64);
             // real-clock cases sleep: oversubscribe a little so that sleeping workers do not idle cores
             let rep = par_cases(args.threads + args.threads / 2, args.seed ^ 0x5E9, n, args.budget(45, 420), |_i, s, r| seq_case(s, false, r));
             total.merge(rep);
@@ -1391,7 +1433,7 @@ fn main() {
             floors.push(("default_chunk_size_programs", 1));
         }
         if want("concurrent") {
-            let n = args.by_tier(600u64, 40_000u64);
+            let n = args.by_tier(1_500u64, 100_000u64);
             let rep = par_cases(args.threads.div_ceil(2).max(1), args.seed ^ 0xC0C, n, args.budget(45, 480), |_i, s, r| {
                 conc_case(s, forced, r);
             });
